@@ -489,6 +489,29 @@ func lookupAgainst(p *Program, call *ssa.Call, xs *ssa.Parameter) bool {
 			if o == ssa.Value(xs) {
 				found = true
 			}
+			// a field of the receiver struct that the caller filled with the table
+			if n, base, ok := loadedField(o); ok && len(callee.Params) > 0 && base == ssa.Value(callee.Params[0]) && len(call.Common().Args) > 0 {
+				for _, ro := range origins(call.Common().Args[0]) {
+					al, ok := ro.(*ssa.Alloc)
+					if !ok {
+						continue
+					}
+					for _, ref := range refs(al) {
+						f2, ok := ref.(*ssa.FieldAddr)
+						if !ok {
+							continue
+						}
+						if n2, _, _ := fieldName(f2); n2 != n {
+							continue
+						}
+						for _, r2 := range refs(f2) {
+							if st, ok := r2.(*ssa.Store); ok && st.Addr == ssa.Value(f2) && origin1(st.Val) == ssa.Value(xs) {
+								found = true
+							}
+						}
+					}
+				}
+			}
 		}
 	}
 	return found
